@@ -107,11 +107,19 @@ def bounds(tier):
                 configs=CONFIGS, endings=['escape', 'exit'], schedule_deviation_bound=1 if tier == 'quick' else 2)
 
 
+def is_base(i):
+    return i in (0, 1) or CONFIGS[i]['filt'] in ('strip-out', 'expand-in', 'shrink-in')
+
+
 def tasks(tier):
     out = []
     for i, cfg in enumerate(CONFIGS):
         for ending in ('escape', 'exit'):
-            out.append(dict(cfg=i, ending=ending, tier=tier, logs=False))
+            if is_base(i):
+                for part in range(4):      # the configurations that get the full stream space are split four ways
+                    out.append(dict(cfg=i, ending=ending, tier=tier, logs=False, part=part, parts=4))
+            else:
+                out.append(dict(cfg=i, ending=ending, tier=tier, logs=False))
     return out
 
 
@@ -327,7 +335,9 @@ def run_task(task):
     acc = Acc()
     cfg = CONFIGS[task['cfg']]
     bound = 1 if task['tier'] == 'quick' else 2
-    for t, pieces, mg in scripts(task['tier'], base=(task['cfg'] in (0, 1) or CONFIGS[task['cfg']]['filt'] in ('strip-out', 'expand-in', 'shrink-in'))):
+    for k_, (t, pieces, mg) in enumerate(scripts(task['tier'], base=is_base(task['cfg']))):
+        if 'part' in task and k_ % task['parts'] != task['part']:
+            continue
         def run(ch):
             return run_interact(ch, cfg, pieces, mg, task['ending'])
         for ch, (obs, viol) in dfs(run, bound=bound):
